@@ -199,6 +199,12 @@ class SV:
         self.c = c
         self.t = t
 
+    def __deepcopy__(self, memo):
+        return self            # immutable value
+
+    def __copy__(self):
+        return self
+
     @staticmethod
     def lift(v):
         if isinstance(v, SV):
@@ -390,6 +396,12 @@ class SB:
         self.c = c
         self.t = t
 
+    def __deepcopy__(self, memo):
+        return self            # immutable value
+
+    def __copy__(self):
+        return self
+
     @staticmethod
     def lift(v):
         if isinstance(v, SB):
@@ -552,35 +564,42 @@ class PathResult:
 PRUNED = [0]
 
 
-def explore(fn, max_paths=None):
-    """Run fn() along every feasible path; return a list of PathResult."""
-    work = [[]]
+def explore_one(fn, dec):
+    """Run fn() along the path with decision prefix `dec`; returns (PathResult or None, pending prefixes)."""
+    CTX.reset_path(dec)
+    try:
+        r = ("ok", fn())
+    except PathInfeasible:
+        return None, []
+    except PathPruned:
+        PRUNED[0] += 1
+        return None, list(CTX.pending)
+    except StopPath:
+        r = ("stop", None)
+    except (Undecided, Unsupported):
+        raise
+    except Exception as e:  # an exception of the code under verification
+        r = ("raise", e)
+        if CTX.early_close is not None:   # raised inside a guarded iteration: holds only under its guards
+            CTX.pc.extend(CTX.early_close)
+            CTX.early_close = None
+    if CTX.early_close is not None:
+        raise Unsupported("break/return out of an iteration over a symbolically guarded selection")
+    pr = PathResult(list(CTX.pc), r[0], r[1], list(CTX.obligations), list(CTX.taken), dict(CTX.notes))
+    return pr, list(CTX.pending)
+
+
+def explore(fn, max_paths=None, start=None):
+    """Run fn() along every feasible path (below the prefixes in `start`); return a list of PathResult."""
+    work = [list(d) for d in start] if start else [[]]
     out = []
     limit = max_paths or CTX.max_paths
     while work:
         dec = work.pop()
-        CTX.reset_path(dec)
-        try:
-            r = ("ok", fn())
-        except PathInfeasible:
-            continue
-        except PathPruned:
-            PRUNED[0] += 1
-            work.extend(CTX.pending)
-            continue
-        except StopPath:
-            r = ("stop", None)
-        except (Undecided, Unsupported):
-            raise
-        except Exception as e:  # an exception of the code under verification
-            r = ("raise", e)
-            if CTX.early_close is not None:   # raised inside a guarded iteration: holds only under its guards
-                CTX.pc.extend(CTX.early_close)
-                CTX.early_close = None
-        if CTX.early_close is not None:
-            raise Unsupported("break/return out of an iteration over a symbolically guarded selection")
-        out.append(PathResult(list(CTX.pc), r[0], r[1], list(CTX.obligations), list(CTX.taken), dict(CTX.notes)))
-        work.extend(CTX.pending)
+        pr, pending = explore_one(fn, dec)
+        if pr is not None:
+            out.append(pr)
+        work.extend(pending)
         if len(out) + len(work) > limit:
             raise Undecided(f"path budget exceeded ({limit})")
     return out
